@@ -22,9 +22,27 @@ def c02(ctx):
     ctx.mon("c02/asm-release", "asm", "release", ["c02"])
 
 
+def c03(ctx):
+    ctx.mon("c03/asm-debug", "asm", "debug", ["c03"])
+    ctx.mon("c03/asm-release", "asm", "release", ["c03"])
+
+
+def c09(ctx):
+    ctx.mon("c09/asm-debug", "asm", "debug", ["c09"])
+    ctx.mon("c09/asm-release", "asm", "release", ["c09"])
+
+
+def c10(ctx):
+    ctx.mon("c10/asm-debug", "asm", "debug", ["c10"])
+    ctx.mon("c10/asm-release", "asm", "release", ["c10"])
+
+
 PROPS = {
     "C01": c01,
     "C02": c02,
+    "C03": c03,
+    "C09": c09,
+    "C10": c10,
 }
 
 
